@@ -137,10 +137,42 @@ class Grammar:
                     cur = None
                 else:
                     self.rules[cur].action["s"].append(st)
+        self._wrappers = self._call_wrappers(facts)
         for r in self.rules:
             if r.action is not None:
                 self._scan_calls(r)
         self.n_actions = nact
+
+    @staticmethod
+    def _call_wrappers(facts):
+        """Functions of parser.y that play the role of the CALL macro: they set the builder position from two location
+        parameters, invoke a callable parameter inside `try` and route a caught TypeException to ch->handle_error.
+        -> {function name: (index of first, index of last, index of the callable)}"""
+        out = {}
+        for fn in facts.functions.values():
+            if not (fn.get("file") or "").endswith("parser.y") or fn.get("body") is None or len(fn["params"]) < 3:
+                continue
+            pn = [p["name"] for p in fn["params"]]
+            first = last = cb = None
+            for c in walk(fn["body"]):
+                if c.get("k") == "call" and c.get("name") == "set_position" and len(c.get("args", [])) == 2:
+                    a0, a1 = c["args"]
+                    if a0.get("k") == "member" and a0.get("name") == "start" and a1.get("k") == "member" and \
+                            a1.get("name") == "end" and a0["base"].get("name") in pn and a1["base"].get("name") in pn:
+                        first, last = pn.index(a0["base"]["name"]), pn.index(a1["base"]["name"])
+                if c.get("k") == "try":
+                    inv = [x for x in walk(c.get("body")) if x.get("k") == "call" and
+                           ((x.get("callee") or {}).get("name") in pn or
+                            (x.get("ck") == "op" and x.get("op") == "()" and (x.get("recv") or {}).get("name") in pn))]
+                    routed = any("TypeException" in (h.get("t") or "") and
+                                 any(y.get("k") == "call" and y.get("name") == "handle_error" for y in walk(h.get("body")))
+                                 for h in c.get("handlers", []) or [])
+                    if len(inv) == 1 and routed:
+                        tgt = inv[0].get("callee") or inv[0].get("recv")
+                        cb = pn.index(tgt["name"])
+            if first is not None and last is not None and cb is not None:
+                out[fn["q"]] = (first, last, cb)
+        return out
 
     def rhs_len_for_refs(self, r):
         """Offset n such that yyvsp[k] is `$ (k+n)` in the host numbering."""
@@ -164,6 +196,24 @@ class Grammar:
     def _scan_calls(self, r):
         order = 0
         for n in walk(r.action):
+            if n.get("k") == "call" and n.get("fn") in self._wrappers and n.get("ck") in ("free", "static", None):
+                fi, li, ci = self._wrappers[n["fn"]]
+                args = n.get("args", [])
+                lam = args[ci] if ci < len(args) else {}
+                while isinstance(lam, dict) and lam.get("k") in ("cast", "materialize"):
+                    lam = lam["e"]
+                if lam.get("k") != "lambda":
+                    raise AnalysisBroken("%s without a lambda in rule %r" % (n["fn"], r))
+                inner = [c for c in (lam.get("body") or {}).get("s", []) if c.get("k") == "call"]
+                if len(inner) != 1 or len((lam.get("body") or {}).get("s", [])) != 1:
+                    raise AnalysisBroken("%s with %d calls in rule %r" % (n["fn"], len(inner), r))
+                c = inner[0]
+                if (c.get("recv") or {}).get("name") != "ch":
+                    raise AnalysisBroken("CALL receiver is not ch in rule %r" % r)
+                first, last = self._sym_index(r, args[fi]), self._sym_index(r, args[li])
+                r.calls.append(Call(r, first, last, c["name"], c.get("args", []), c, c.get("l"), order))
+                order += 1
+                continue
             if n.get("k") != "do":
                 continue
             ss = n["body"].get("s", []) if isinstance(n.get("body"), dict) else []
